@@ -23,6 +23,97 @@ pub enum Fault {
     },
     /// two honest messages delivered as one (concatenated frames)
     Concat { other: usize },
+    /// word overwrite: a structurally located length / count / size field is replaced by another
+    /// value of the same width (misdirected or stale word-sized write). `enc`: how the field is
+    /// laid out (see `WordEnc`); `hex`: the buffer is the hex text of the bytes (offsets in
+    /// characters). The buffer length never changes.
+    Word {
+        off: usize,
+        width: usize,
+        val: u64,
+        enc: WordEnc,
+        hex: bool,
+    },
+}
+
+#[derive(Clone, Copy, Debug, PartialEq, Eq, Serialize, Deserialize)]
+#[serde(rename_all = "snake_case")]
+pub enum WordEnc {
+    /// `width` bytes at `off`, big endian (legacy layouts, DMQ frame, CBOR header arguments)
+    Be,
+    /// `width` bytes at `off`, little endian (bincode arguments after a 0xfb/0xfc/0xfd marker)
+    Le,
+    /// CBOR header rewrite: the header byte at `off` keeps its major type and gets the
+    /// additional-information value announcing a `width`-byte argument, which overwrites the
+    /// `width` bytes that follow (a 1 + width byte stale write over a short header)
+    CborHeader,
+    /// bincode varint rewrite: the byte at `off` becomes the marker announcing a `width`-byte
+    /// little-endian argument (0xfb / 0xfc / 0xfd), which overwrites the bytes that follow
+    BincodeMarker,
+}
+
+/// A located length / count / size field of an honest encoding.
+#[derive(Clone, Copy, Debug, PartialEq, Eq)]
+pub struct WordField {
+    pub off: usize,
+    pub width: usize,
+    pub enc: WordEnc,
+    pub hex: bool,
+}
+
+impl WordField {
+    pub fn shifted(&self, by: usize) -> WordField {
+        WordField { off: self.off + by, ..*self }
+    }
+    /// the same field in the hex text of the buffer; `at`: character offset of the hex text
+    pub fn in_hex(&self, at: usize) -> WordField {
+        WordField { off: at + 2 * self.off, hex: true, ..*self }
+    }
+}
+
+/// Element sizes and offsets the legacy parsers multiply or add with (digest 32, BLS signature
+/// 48, key 96, key + PoP 192, registration entry 104, signature tail 56, in-memory signature
+/// with party 328, parameters 24, KES signature 448 ...).
+pub const ELEMENT_SIZES: [u64; 14] = [8, 16, 24, 32, 48, 56, 64, 96, 104, 192, 200, 256, 328, 448];
+const ADDED_CONSTANTS: [u64; 4] = [8, 16, 56, 64];
+
+/// Boundary values for a field of `width` bytes: the values where `8 * n`, `n * size`,
+/// `offset + n` and `offset + constant` change behaviour. Sorted, unique, finite (< 1000).
+pub fn boundary_values(width: usize) -> Vec<u64> {
+    let bits = (width * 8).min(64) as u32;
+    let max: u64 = if bits == 64 { u64::MAX } else { (1u64 << bits) - 1 };
+    let mut v: Vec<u64> = vec![0, 1];
+    for k in [7u32, 8, 15, 16, 31, 32, 60, 61, 62, 63] {
+        if k < bits {
+            let p = 1u64 << k;
+            v.extend([p - 1, p, p.saturating_add(1)]);
+        }
+    }
+    for c in 0..=8u64 {
+        v.push(max.saturating_sub(c));
+    }
+    for s in ELEMENT_SIZES {
+        let q = max / s;
+        for d in -8i64..=8 {
+            v.push(q.saturating_add_signed(d));
+        }
+        // offset + n just below / above the wrap point when a constant of this size is added
+        for c in 0..=8u64 {
+            v.push(max.saturating_sub(s).saturating_sub(c));
+            v.push(max.saturating_sub(s).saturating_add(c));
+        }
+        // s * n + c wraps
+        for c in ADDED_CONSTANTS {
+            let q = max.saturating_sub(c) / s;
+            for d in -2i64..=2 {
+                v.push(q.saturating_add_signed(d));
+            }
+        }
+    }
+    v.retain(|x| *x <= max);
+    v.sort_unstable();
+    v.dedup();
+    v
 }
 
 impl Fault {
@@ -36,6 +127,8 @@ impl Fault {
             Fault::DupTail { .. } => "tail_duplication",
             Fault::Splice { .. } => "splice",
             Fault::Concat { .. } => "concatenation",
+            Fault::Word { enc: WordEnc::Be | WordEnc::Le, .. } => "word_overwrite",
+            Fault::Word { .. } => "word_overwrite_header_rewrite",
         }
     }
 }
@@ -112,10 +205,99 @@ pub fn apply(
                 }
                 _ => false,
             },
+            Fault::Word { off, width, val, enc, hex } => write_word(&mut b, *off, *width, *val, *enc, *hex),
         };
         if ok {
             fired.push(f.kind());
         }
     }
     (b, fired)
+}
+
+/// Overwrite a located field in place. Returns false (not enabled) when it does not fit or
+/// nothing changes.
+fn write_word(b: &mut [u8], off: usize, width: usize, val: u64, enc: WordEnc, hex: bool) -> bool {
+    if !(1..=8).contains(&width) {
+        return false;
+    }
+    let unit = if hex { 2 } else { 1 };
+    let get = |b: &[u8], i: usize| -> Option<u8> {
+        if hex {
+            let hi = (*b.get(off + 2 * i)? as char).to_digit(16)?;
+            let lo = (*b.get(off + 2 * i + 1)? as char).to_digit(16)?;
+            Some((hi * 16 + lo) as u8)
+        } else {
+            b.get(off + i).copied()
+        }
+    };
+    let be = val.to_be_bytes();
+    let le = val.to_le_bytes();
+    let mut image: Vec<u8> = Vec::with_capacity(width + 1);
+    match enc {
+        WordEnc::Be => image.extend_from_slice(&be[8 - width..]),
+        WordEnc::Le => image.extend_from_slice(&le[..width]),
+        WordEnc::CborHeader => {
+            let Some(head) = get(b, 0) else { return false };
+            let ai = match width {
+                1 => 24,
+                2 => 25,
+                4 => 26,
+                8 => 27,
+                _ => return false,
+            };
+            image.push((head & 0xe0) | ai);
+            image.extend_from_slice(&be[8 - width..]);
+        }
+        WordEnc::BincodeMarker => {
+            let marker = match width {
+                2 => 0xfb,
+                4 => 0xfc,
+                8 => 0xfd,
+                _ => return false,
+            };
+            image.push(marker);
+            image.extend_from_slice(&le[..width]);
+        }
+    }
+    if off + unit * image.len() > b.len() {
+        return false;
+    }
+    let mut changed = false;
+    for (i, byte) in image.iter().enumerate() {
+        if hex {
+            let text = [b"0123456789abcdef"[(byte >> 4) as usize], b"0123456789abcdef"[(byte & 15) as usize]];
+            if b[off + 2 * i..off + 2 * i + 2] != text {
+                b[off + 2 * i..off + 2 * i + 2].copy_from_slice(&text);
+                changed = true;
+            }
+        } else if b[off + i] != *byte {
+            b[off + i] = *byte;
+            changed = true;
+        }
+    }
+    changed
+}
+
+#[cfg(test)]
+mod tests {
+    use super::*;
+
+    #[test]
+    fn boundary_set_contains_the_wrap_points() {
+        let v = boundary_values(8);
+        assert!(v.len() < 1000);
+        // 8 * n + 8 + 56 wraps
+        for n in 0x1FFF_FFFF_FFFF_FFF8u64..=0x1FFF_FFFF_FFFF_FFFE {
+            assert!(v.contains(&n), "{n:x}");
+        }
+        assert!(v.contains(&(u64::MAX / 328)));
+        assert!(boundary_values(2).iter().all(|x| *x <= 0xffff));
+    }
+
+    #[test]
+    fn word_in_hex() {
+        let mut b = b"0000000000000003ff".to_vec();
+        assert!(write_word(&mut b, 0, 8, 0x1fff_ffff_ffff_fff8, WordEnc::Be, true));
+        assert_eq!(&b, b"1ffffffffffffff8ff");
+    }
 }
